@@ -8,7 +8,7 @@ from __future__ import annotations
 import ast
 
 from ..core import Rule, AnalysisError, norm
-from .. import pyfront, pytaint, rx, cfold
+from .. import pyfront, pytaint, rx, cfold, pysym
 
 W = "DigitalMetadataWriter"
 R = "DigitalMetadataReader"
@@ -89,44 +89,144 @@ def _no_key_violation(r, e):
     return r
 
 
+class Key(object):
+    """the writer's per-sample grouping key: argument name, body expression, defining node"""
+
+    def __init__(self, arg, body, node):
+        self.arg, self.body, self.node = arg, body, node
+        self.lineno = node.lineno
+
+
+def _key_function(m, wf, e):
+    if isinstance(e, ast.Lambda) and len(e.args.args) == 1:
+        return Key(e.args.args[0].arg, e.body, e)
+    target = None
+    if isinstance(e, ast.Name):
+        for n in ast.walk(wf):
+            if isinstance(n, ast.FunctionDef) and n is not wf and n.name == e.id:
+                target = n
+            if isinstance(n, ast.Assign) and len(n.targets) == 1 and isinstance(n.targets[0], ast.Name) and n.targets[0].id == e.id \
+                    and isinstance(n.value, ast.Lambda):
+                return _key_function(m, wf, n.value)
+        if target is None and e.id in m.functions:
+            target = m.functions[e.id]
+        params = [a.arg for a in target.args.args] if target is not None else []
+    elif isinstance(e, ast.Attribute) and pyfront.dotted(e) and pyfront.dotted(e).startswith("self."):
+        target = m.functions.get(W + "." + pyfront.dotted(e)[5:])
+        params = [a.arg for a in target.args.args if a.arg != "self"] if target is not None else []
+    if target is None or len(params) != 1:
+        return None
+    body = [x for x in target.body if not (isinstance(x, ast.Expr) and isinstance(x.value, ast.Constant))]
+    env = pysym.seq_env(body[:-1])
+    if not isinstance(body[-1], ast.Return) or body[-1].value is None:
+        return None
+    return Key(params[0], pysym.subst(body[-1].value, env), target)
+
+
 def placement_exprs(repo=None):
-    """(module, writer key expr + env, reader start_ts expr + env)"""
+    """(module, writer fn, writer key, reader fn)"""
     m = pyfront.mod("digital_metadata", repo)
     wf = m.fn(W + "._sample_group_generator")
     key = None
     for c in ast.walk(wf):
-        if isinstance(c, ast.Call) and pyfront.call_name(c) == "itertools.groupby" and len(c.args) == 2 \
-                and isinstance(c.args[1], ast.Lambda):
-            key = c.args[1]
+        if isinstance(c, ast.Call) and pyfront.call_name(c) in ("itertools.groupby", "groupby") and (
+                len(c.args) == 2 or pyfront.kwarg(c, "key") is not None):
+            key = _key_function(m, wf, pyfront.kwarg(c, "key", 1))
+            if key is None:
+                raise AnalysisError("%s._sample_group_generator: groupby key function `%s` not resolved" % (
+                    W, norm(ast.unparse(pyfront.kwarg(c, "key", 1)))))
     if key is None:
         raise NoPerSampleKey(m, wf)
     rf = m.fn(R + "._get_file_list")
-    starts = [n for n in pyfront.walk_no_nested(rf) if isinstance(n, ast.Assign) and isinstance(n.targets[0], ast.Name)
-              and n.targets[0].id in ("start_ts", "end_ts")]
-    if len(starts) < 2:
-        raise AnalysisError("%s._get_file_list: start_ts/end_ts assignments not found" % R)
-    return m, wf, key, rf, starts
+    return m, wf, key, rf
+
+
+def _writer_forms(m, wf, key):
+    """canonical forms of the file timestamp in the file name and of the sub-directory timestamp, in terms of leaf `k`"""
+    loop = None
+    for n in ast.walk(wf):
+        if isinstance(n, ast.For) and any(isinstance(c, ast.Call) and pyfront.call_name(c) in ("itertools.groupby", "groupby")
+                                          for c in ast.walk(n.iter)):
+            loop = n
+    if loop is None or not isinstance(loop.target, ast.Tuple) or not isinstance(loop.target.elts[0], ast.Name):
+        raise AnalysisError("%s._sample_group_generator: loop over the groupby result not recognised" % W)
+    idx = loop.target.elts[0].id
+    pre = [x for x in wf.body]
+    env = pysym.seq_env(pre, stop=loop)
+    kbody = pysym.subst(key.body, env)
+    kbody = pysym.subst(kbody, {key.arg: ast.Name("k", ast.Load())})
+    env2 = dict(env)
+    env2[idx] = kbody
+    pysym.seq_env(loop.body, env2)
+    fmt = [n for n in ast.walk(loop) if isinstance(n, ast.BinOp) and isinstance(n.op, ast.Mod) and isinstance(n.left, ast.Constant)
+           and isinstance(n.left.value, str) and "@" in n.left.value]
+    ts = [c for c in ast.walk(loop) if isinstance(c, ast.Call) and isinstance(c.func, ast.Attribute) and c.func.attr in (
+        "fromtimestamp", "utcfromtimestamp")]
+    if len(fmt) != 1 or not isinstance(fmt[0].right, ast.Tuple) or len(fmt[0].right.elts) != 2 or len(ts) != 1:
+        raise AnalysisError("%s._sample_group_generator: file-name format / fromtimestamp not found exactly once" % W)
+    # evaluate the two arguments at their program points
+    envf = dict(env); envf[idx] = kbody
+    pysym.seq_env(loop.body, envf, stop=m.enclosing(fmt[0], (ast.stmt,)))
+    file_c = pysym.canon(pysym.subst(fmt[0].right.elts[1], envf))
+    envs = dict(env); envs[idx] = kbody
+    pysym.seq_env(loop.body, envs, stop=m.enclosing(ts[0], (ast.stmt,)))
+    sub_c = pysym.canon(pysym.subst(ts[0].args[0], envs))
+    return loop, idx, file_c, sub_c, fmt[0], ts[0]
+
+
+def _reader_forms(m, rf):
+    """for each range parameter (sample0, sample1): canonical forms of all locals derived from it before the listing loop"""
+    params = [a.arg for a in rf.args.args if a.arg != "self"]
+    if len(params) < 2:
+        raise AnalysisError("%s._get_file_list: parameters not recognised" % R)
+    loops = [x for x in rf.body if isinstance(x, ast.For)]
+    if not loops:
+        raise AnalysisError("%s._get_file_list: sub-directory loop not found" % R)
+    env = pysym.seq_env(rf.body, stop=loops[0])
+    used = {n.id for n in ast.walk(loops[0]) if isinstance(n, ast.Name) and isinstance(n.ctx, ast.Load)}
+    out = {}
+    for p in params[:2]:
+        forms = {}
+        for name, val in env.items():
+            c = pysym.canon(val)
+            if p in pysym.leaves(c) and name in used:
+                forms[name] = pysym.rename_leaf(c, p, "k")
+        out[p] = forms
+    return params[:2], loops[0], out
 
 
 def r1_exact_placement(repo=None, rid="C13.R1"):
     r = Rule(rid, "metadata file placement uses exact integer arithmetic in writer and reader (float taint)")
     try:
-        m, wf, key, rf, starts = placement_exprs(repo)
+        m, wf, key, rf = placement_exprs(repo)
     except NoPerSampleKey as e:
         return _no_key_violation(r, e)
     tw = pytaint.Taint(wf, float_attrs=FLOAT_ATTRS)
     kt = tw.expr(key.body)
     qn = W + "._sample_group_generator"
     if kt == "F":
-        r.violation(m.rel, qn, "groupby key: %s" % norm(ast.unparse(key)), "the file of a sample is chosen with floating-point "
+        r.violation(m.rel, qn, "groupby key: %s" % norm(ast.unparse(key.body)), "the file of a sample is chosen with floating-point "
                     "arithmetic: for non-integer sample rates a sample exactly on a file boundary is stored in the neighbouring "
                     "file, where the reader does not look", line=key.lineno)
     else:
         r.ok("%s:%s %s groupby key `%s`" % (m.rel, key.lineno, qn, norm(ast.unparse(key.body))), "no floating point in the key's slice")
-    fv = [v for v in tw.root_float_vars() if v in ("file_ts", "file_idx", "start_sub_ts", "samples_per_file")]
+    # every local in the slice of the file path
+    opens = [c for c in ast.walk(wf) if isinstance(c, ast.Call) and pyfront.call_name(c) == "h5py.File"]
+    slice_vars = set()
+    if opens:
+        work = [n.id for n in ast.walk(opens[0].args[0]) if isinstance(n, ast.Name)] if opens[0].args else []
+        while work:
+            v = work.pop()
+            if v in slice_vars:
+                continue
+            slice_vars.add(v)
+            for n in pyfront.walk_no_nested(wf):
+                if isinstance(n, ast.Assign) and any(isinstance(t, ast.Name) and t.id == v for t in n.targets):
+                    work.extend(x.id for x in ast.walk(n.value) if isinstance(x, ast.Name))
+    fv = [v for v in tw.root_float_vars() if v in slice_vars]
     for v in fv:
         r.violation(m.rel, qn, "%s = %s" % (v, norm(ast.unparse(tw.why[v])) if v in tw.why else "?"),
-                    "`%s` is derived through floating point" % v, line=getattr(tw.why.get(v), "lineno", wf.lineno))
+                    "`%s` (part of the file path) is derived through floating point" % v, line=getattr(tw.why.get(v), "lineno", wf.lineno))
     tr = pytaint.Taint(rf, float_attrs=FLOAT_ATTRS)
     qr = R + "._get_file_list"
     rfv = tr.root_float_vars()
@@ -136,7 +236,7 @@ def r1_exact_placement(repo=None, rid="C13.R1"):
                         "the reader computes `%s` through floating point: the file it looks in can differ from the file the "
                         "sample's exact time selects" % v, line=getattr(tr.why.get(v), "lineno", rf.lineno))
     else:
-        r.ok("%s:%s %s" % (m.rel, rf.lineno, qr), "start_ts / end_ts and everything derived from them are free of floating-point taint")
+        r.ok("%s:%s %s" % (m.rel, rf.lineno, qr), "the range bounds and everything derived from them are free of floating-point taint")
     r.guard(2)
     return r
 
@@ -144,52 +244,51 @@ def r1_exact_placement(repo=None, rid="C13.R1"):
 def r2_one_formula(repo=None):
     r = Rule("C13.R2", "writer and reader map a sample index to its file with the same formula")
     try:
-        m, wf, key, rf, starts = placement_exprs(repo)
+        m, wf, key, rf = placement_exprs(repo)
     except NoPerSampleKey as e:
         return _no_key_violation(r, e)
-    wenv = _single_assign_env(wf)
-    renv = _single_assign_env(rf)
-    # writer: file index = key(s); file_ts = file_idx * cadence
-    kb = key.body
-    arg = key.args.args[0].arg
-    wn = _floor_chain(kb, wenv)
-    # reader: start_ts = floor(sample0*d/n); then (start_ts // cadence) * cadence
-    first = starts[0]
-    rn = _floor_chain(first.value, renv)
-    site = "%s:%s/%s" % (m.rel, key.lineno, first.lineno)
-    if wn is None or rn is None:
-        r.violation(m.rel, W + "._sample_group_generator", "writer `%s` / reader `%s`" % (norm(ast.unparse(kb)), norm(ast.unparse(first.value))),
-                    "placement expressions are not nested floor divisions of integer products; writer and reader cannot be "
-                    "shown to use one formula", line=key.lineno)
+    loop, idx, file_c, sub_c, fmt, ts = _writer_forms(m, wf, key)
+    params, rloop, forms = _reader_forms(m, rf)
+    qn = W + "._sample_group_generator"
+    qr = R + "._get_file_list"
+    if "k" not in pysym.leaves(file_c):
+        r.violation(m.rel, qn, "file timestamp %s" % pysym.show(file_c), "the timestamp in the file name does not depend on the "
+                    "sample's own index", line=fmt.lineno)
         return r
-    # normalise: writer file index = floor(k*d / (n*c)); reader second = floor(k*d/n), then //c
-    def rename(t, frm, to):
-        return tuple(sorted(to if x == frm else x for x in t))
-    wnum, wden = rename(wn[0], arg, "k"), wn[1]
-    rvar = [x for x in rn[0] if x.startswith("sample")]
-    rnum = rename(rn[0], rvar[0], "k") if rvar else rn[0]
-    rden = rn[1]
-    # the reader then floors by the file cadence: find `(start_ts // cadence) * cadence`
-    src = ast.unparse(rf)
-    cad_ok = "start_ts = start_ts // self._file_cadence_secs * self._file_cadence_secs" in src
-    full_rden = tuple(sorted(rden + ("file_cadence_secs",))) if cad_ok else rden
-    wden_n = tuple(sorted(wden))
-    canon = lambda t: tuple(sorted(x.replace("_sample_rate", "sample_rate").lstrip("_") for x in t))
-    want_num = ("k", "sample_rate_denominator")
-    want_den = ("file_cadence_secs", "sample_rate_numerator")
-    if canon(wnum) == canon(rnum) == want_num and canon(wden_n) == canon(full_rden) == want_den:
-        r.ok(site, "writer floor(k*d/(n*cadence)) and reader floor(floor(k*d/n)/cadence) are the same function "
-                   "(nested floor division by positive integers collapses)")
+    r.note("writer: file timestamp of sample k = %s" % pysym.show(file_c))
+    for p in params:
+        if not forms[p]:
+            raise AnalysisError("%s: no local derived from `%s` is used in the listing loop" % (qr, p))
+        match = [n for n, c in forms[p].items() if c == file_c]
+        if match:
+            r.ok("%s:%s %s `%s`" % (m.rel, rf.lineno, qr, match[0]), "file timestamp of %s = %s, the writer's formula "
+                 "(nested floor divisions by positive integers collapse)" % (p, pysym.show(file_c)))
+        else:
+            r.violation(m.rel, qr, "writer %s / reader %s" % (pysym.show(file_c), "; ".join(
+                        "%s = %s" % (n, pysym.show(c)) for n, c in sorted(forms[p].items()))),
+                        "no bound the reader derives from `%s` is the writer's file timestamp formula: writer and reader place "
+                        "samples with different formulas" % p, line=rf.lineno)
+    # sub-directory: floor to the sub-directory cadence of the same file timestamp, on both sides
+    want_sub = None
+    if sub_c[0] == "mul" and len(sub_c[1]) == 2:
+        fd = [x for x in sub_c[1] if x[0] == "fdiv"]
+        other = [x for x in sub_c[1] if x[0] != "fdiv"]
+        if len(fd) == 1 and len(other) == 1 and other[0] in fd[0][2]:
+            want_sub = sub_c
+    if want_sub is None:
+        r.violation(m.rel, qn, "sub-directory timestamp %s" % pysym.show(sub_c), "the sub-directory is not the file timestamp floored "
+                    "to a multiple of the sub-directory cadence", line=ts.lineno)
     else:
-        r.violation(m.rel, W + "._sample_group_generator", "writer num=%s den=%s / reader num=%s den=%s" % (
-            canon(wnum), canon(wden_n), canon(rnum), canon(full_rden)), "writer and reader place samples with different "
-            "formulas (expected floor(k*d/(n*cadence)) on both sides)", line=key.lineno)
-    # file_ts = file_idx * cadence in the writer
-    if "file_ts = file_idx * self._file_cadence_secs" in ast.unparse(wf):
-        r.ok("%s %s" % (m.rel, W + "._sample_group_generator"), "file timestamp = file index * file cadence")
-    else:
-        r.violation(m.rel, W + "._sample_group_generator", "file_ts", "file timestamp is not file index * cadence", line=wf.lineno)
-    r.guard(2)
+        for p in params:
+            match = [n for n, c in forms[p].items() if c == sub_c]
+            if match:
+                r.ok("%s:%s %s `%s`" % (m.rel, rf.lineno, qr, match[0]), "sub-directory timestamp of %s = %s as in the writer" % (
+                    p, pysym.show(sub_c)))
+            else:
+                r.violation(m.rel, qr, "writer sub-directory %s / reader %s" % (pysym.show(sub_c), "; ".join(
+                            "%s = %s" % (n, pysym.show(c)) for n, c in sorted(forms[p].items()))),
+                            "the reader does not derive the writer's sub-directory timestamp from `%s`" % p, line=rf.lineno)
+    r.guard(4)
     return r
 
 
@@ -198,11 +297,21 @@ def r3_format_agreement(repo=None):
     m = pyfront.mod("digital_metadata", repo)
     wf = m.fn(W + "._sample_group_generator")
     rf = m.fn(R + "._get_file_list")
+    fold = cfold.Folder(repo)
+
     def fmts(fn):
         f1 = [n.left.value for n in ast.walk(fn) if isinstance(n, ast.BinOp) and isinstance(n.op, ast.Mod)
               and isinstance(n.left, ast.Constant) and isinstance(n.left.value, str) and "@" in n.left.value]
-        f2 = [pyfront.const(c.args[0]) for c in ast.walk(fn) if isinstance(c, ast.Call) and isinstance(c.func, ast.Attribute)
-              and c.func.attr == "strftime"]
+        f2 = [fold.expr("digital_metadata", c.args[0]) for c in ast.walk(fn) if isinstance(c, ast.Call)
+              and isinstance(c.func, ast.Attribute) and c.func.attr == "strftime" and c.args]
+        for n in ast.walk(fn):
+            if isinstance(n, ast.BinOp) and isinstance(n.op, ast.Mod) and isinstance(n.left, ast.Name):
+                try:
+                    val = fold.expr("digital_metadata", n.left)
+                except AnalysisError:
+                    continue
+                if isinstance(val, str) and "@" in val:
+                    f1.append(val)
         return f1, f2
     w1, w2 = fmts(wf)
     r1, r2 = fmts(rf)
@@ -240,36 +349,56 @@ def r3_format_agreement(repo=None):
 
 
 def r4_subdir_per_file(repo=None):
-    r = Rule("C13.R4", "the sub-directory of every metadata file is recomputed from that file's own timestamp")
-    m = pyfront.mod("digital_metadata", repo)
+    r = Rule("C13.R4", "the location of every metadata file is recomputed from that file's own index on every iteration")
+    try:
+        m, wf, key, rf = placement_exprs(repo)
+    except NoPerSampleKey as e:
+        return _no_key_violation(r, e)
     q = W + "._sample_group_generator"
     g = m.cfg(q)
-    heads = [n for n in g.nodes if n.kind == "cond" and isinstance(n.ast, ast.For) and "file_idx" in ast.unparse(n.ast.target)]
+    loop, idx, file_c, sub_c, fmt, ts = _writer_forms(m, wf, key)
+    heads = [n for n in g.nodes if n.kind == "cond" and n.ast is loop]
     opens = [n for n in g.nodes if any(pyfront.call_name(c) == "h5py.File" for c in pyfront.node_calls(n))]
-    if len(heads) != 1 or not opens:
-        raise AnalysisError("%s: per-file loop or h5py.File not found" % q)
-    need = {"file_ts": "file_idx * self._file_cadence_secs",
-            "start_sub_ts": "file_ts // self._subdir_cadence_secs * self._subdir_cadence_secs",
-            "this_file": "os.path.join(subdir, file_basename)"}
+    if len(heads) != 1 or len(opens) != 1:
+        raise AnalysisError("%s: per-file loop or h5py.File not found exactly once" % q)
+    oc = [c for c in pyfront.node_calls(opens[0]) if pyfront.call_name(c) == "h5py.File"][0]
+    if not oc.args:
+        raise AnalysisError("%s: h5py.File without positional file name" % q)
     body = [b for b, l in g.succ[heads[0].id] if l == "T"]
-    for var, want in need.items():
-        defs = [n for n in g.nodes if isinstance(n.ast, ast.Assign) and len(n.ast.targets) == 1 and isinstance(n.ast.targets[0], ast.Name)
-                and n.ast.targets[0].id == var]
-        good = [n for n in defs if norm(ast.unparse(n.ast.value)) == want]
-        others = [n for n in defs if n not in good]
-        if not good or others:
-            x = (others or defs or heads)[0]
-            r.violation(m.rel, q, "%s = %s" % (var, norm(ast.unparse(x.ast.value)) if isinstance(x.ast, ast.Assign) else "?"),
-                        "`%s` is not (only) computed as `%s`" % (var, want), line=x.line)
+    # backward slice of the opened path through local assignments
+    defs_of = {}
+    for n in g.nodes:
+        if isinstance(n.ast, ast.Assign) and len(n.ast.targets) == 1 and isinstance(n.ast.targets[0], ast.Name):
+            defs_of.setdefault(n.ast.targets[0].id, []).append(n)
+    pre = {n.id for n in g.nodes if n.line is not None and n.line < loop.lineno}
+    work = [x.id for x in ast.walk(oc.args[0]) if isinstance(x, ast.Name)]
+    chain = []
+    seen = set()
+    while work:
+        v = work.pop()
+        if v in seen or v == idx:
             continue
-        skip = [o for o in opens if o.id in g.reach(body, avoid=[n.id for n in good], skip_labels=("exc", "back"))]
-        if skip:
-            r.violation(m.rel, q, "`%s = %s` is not executed on every iteration before the file is opened" % (var, want),
+        seen.add(v)
+        ds = defs_of.get(v, [])
+        if not ds or all(d.id in pre for d in ds):
+            continue        # parameter / closure constant computed before the loop
+        chain.append(v)
+        for d in ds:
+            work.extend(x.id for x in ast.walk(d.ast.value) if isinstance(x, ast.Name))
+    if idx not in seen and idx not in {x.id for v in chain for d in defs_of[v] for x in ast.walk(d.ast.value) if isinstance(x, ast.Name)}:
+        r.violation(m.rel, q, "h5py.File(%s, ...)" % norm(ast.unparse(oc.args[0])), "the path of the file does not depend on the "
+                    "group's file index `%s`" % idx, line=opens[0].line)
+    for v in sorted(chain):
+        ds = defs_of[v]
+        skip = opens[0].id in g.reach(body, avoid=[d.id for d in ds if d.id not in pre], skip_labels=("exc", "back"))
+        stale = [d for d in ds if d.id in pre]
+        if skip or stale:
+            r.violation(m.rel, q, "`%s` is not assigned on every iteration before the file is opened" % v,
                         "the location of a file depends on state left over from an earlier group of the same write() call (e.g. a "
                         "cached sub-directory): a sample whose file lies in another sub-directory than the previous group's is "
-                        "stored where the reader does not look", line=good[0].line)
+                        "stored where the reader does not look", line=ds[0].line)
         else:
-            r.ok("%s:%s %s `%s = %s`" % (m.rel, good[0].line, q, var, want), "computed on every iteration before the file is opened")
+            r.ok("%s:%s %s `%s`" % (m.rel, ds[0].line, q, v), "computed on every iteration before the file is opened")
     r.guard(3)
     return r
 
